@@ -174,6 +174,9 @@ def gen(rng, tier, ctx):
         else:
             op = {"op": "restart", "entropy": rng.randint(0, 2 ** 32)}
         opl.append(op)
+    if rng.random() < 0.12:
+        small = [dict(q, width=min(q["width"], 5), length=min(q["length"], 5)) for q in psets]
+        opl.insert(rng.randrange(len(opl) + 1), genops.make_pair(rng, rng.choice(small), rng.choice(small)))
     return {"cfg": {"klass": "plain"}, "ops": opl}
 
 
@@ -237,6 +240,16 @@ def execute(spec, w, ctx):
         if kind == "restart":
             w.restart(op.get("entropy", 0))
             disturbed = True
+            continue
+        if kind == "gen_pair":
+            out_a, res_b, before_p, after_p = genops.run_gen_pair(w, op)
+            events.append([i_op, "gen_pair", out_a["status"], res_b["status"]])
+            pb_ = genops.pair_problem(ctx, op, out_a, res_b, before_p, after_p)
+            disturbed = True
+            if pb_ is not None:
+                res["violation"] = viol("I15.2", i_op, pb_[1], pb_[0])
+                break
+            nontrivial = True
             continue
         if kind == "tenant":
             rnd = random
